@@ -116,10 +116,13 @@ class MaintenanceInfo:
         """
         if self._lock:
             raise MaintenanceModeException("Unable to modify a finalized object, recreate and reassign")
-        self._nodes[name] = minfo
+        # keep a copy: the caller's object must not be a handle on this (later finalized) record
+        self._nodes[name] = dataclasses.replace(minfo)
 
     def get(self, name: str) -> MaintenanceEntry or None:
-        return self._nodes.get(name)
+        entry = self._nodes.get(name)
+        # hand out a copy, entries are mutable
+        return dataclasses.replace(entry) if entry is not None else None
 
     def rem(self, name: str) -> None:
         """
@@ -150,7 +153,7 @@ class MaintenanceInfo:
         Copy an instance of the object but don't finalize
         """
         t = MaintenanceInfo()
-        t._nodes = self._nodes.copy()
+        t._nodes = {k: dataclasses.replace(v) for k, v in self._nodes.items()}
         return t
 
     def list_names(self) -> List[str]:
@@ -163,7 +166,7 @@ class MaintenanceInfo:
         """
         Return a list of tuples with node name and maintenance state details
         """
-        return list(self._nodes.copy().items())
+        return [(k, dataclasses.replace(v)) for k, v in self._nodes.items()]
 
     def iter(self):
         """
@@ -173,8 +176,8 @@ class MaintenanceInfo:
         """
         if not self._lock:
             raise MaintenanceModeException("Object should be finalized prior to attempting iteration")
-        for i in self._nodes.items():
-            yield i
+        for k, v in self._nodes.items():
+            yield k, dataclasses.replace(v)
 
     @classmethod
     def from_json(cls, json_string: str):
